@@ -391,7 +391,7 @@ def _check_subproc_helper_raise(in_boolop):
         return
     if not XSH.env.get("XONSH_SUBPROC_RAISE_ERROR"):
         return
-    cp = XSH.lastcmd
+    cp = _lastcmd_of_this_thread()
     if cp is None:
         return
     spec = getattr(cp, "spec", None)
@@ -413,6 +413,22 @@ def _check_subproc_helper_raise(in_boolop):
 
     output = getattr(cp, "output", None)
     raise subprocess.CalledProcessError(rtn, spec.args, output=output)
+
+
+def _lastcmd_of_this_thread():
+    """``XSH.lastcmd`` is process-global: inside a callable alias (a thread) it
+    may meanwhile hold the *enclosing* pipeline, stored there by the main
+    thread.  Evaluating that one's ``returncode`` from the alias thread ends the
+    enclosing pipeline from inside one of its own stages - it waits for itself."""
+    import threading
+
+    cp = XSH.lastcmd
+    if cp is not None and getattr(cp, "_owner_thread", None) not in (
+        None,
+        threading.get_ident(),
+    ):
+        return None
+    return cp
 
 
 def subproc_captured_stdout(*cmds, envs=None, in_boolop=False):
@@ -543,7 +559,7 @@ def subproc_check_boolop(value):
         # Value isn't a CommandPipeline (e.g. string from $(), None from
         # $[], list from @$()).  Fall back to the most recently
         # completed pipeline so we can still inspect its returncode.
-        last = XSH.lastcmd
+        last = _lastcmd_of_this_thread()
         if last is None:
             return value
         spec = getattr(last, "spec", None)
